@@ -128,9 +128,20 @@ func tTag(c context, s []byte) (context, int) {
 		if c.element.name != "" && voidElements[c.element.name] {
 			// Special case: end of start tag of a void element.
 			// Discard unnecessary state, since this element have no content.
-			ret.element = element{}
-			ret.scriptType = ""
-			ret.linkRel = ""
+			// If conditional branches spelled other names too, all of them must be void:
+			// otherwise what follows is the content of one of those elements, and the
+			// element is kept so that actions there are checked against every name.
+			allVoid := true
+			for _, name := range c.element.names {
+				if !voidElements[name] {
+					allVoid = false
+				}
+			}
+			if allVoid {
+				ret.element = element{}
+				ret.scriptType = ""
+				ret.linkRel = ""
+			}
 		}
 		return ret, i + 1
 	}
